@@ -4,7 +4,8 @@ See DESIGN.md §2 C01 and design/C01.md.
 Pipeline: (1) build + Print Assumptions of theories/C01; (2) real hub messages and their
 frames from the real sender, streams of items (frames / marker-free gaps / undecodable,
 zero-length and truncated frames / arbitrary bytes) under many chunkings, plus exhaustive
-token sweeps; (3) the real DevOutThread.ingest on every (stream, chunking)
+token sweeps; (3) the real DevOutThread.run loop (a Device whose read() replays the schedule, incl.
+None / b'' reads) on every (stream, chunking)
 (harness/impl/C01.py); (4) oracle = the property on the real code; (5) correspondence
 model vs implementation evaluated inside Coq; (6) verdict.
 """
@@ -70,10 +71,37 @@ def split(stream, ch):
         return [stream[i:i + k] for i in range(0, len(stream), k)]
     out, s = [], stream
     for n in ch[1]:
+        if n is None:                      # ("reads" schedules only) read() returned None
+            out.append(None); continue
         out.append(s[:n]); s = s[n:]
     if s:
         out.append(s)
     return out
+
+
+def hexs(chunks):
+    return [None if c is None else c.hex() for c in chunks]
+
+
+def with_empties(rng, sizes, mode):
+    """a 'reads' schedule: the given chunk sizes with empty reads (None = select() timeout of the
+    transports, 0 = b'') inserted -- mode 'each': one after every chunk, alternating; 'random'"""
+    out = []
+    if mode == "each":
+        out.append(None)
+        for i, n in enumerate(sizes):
+            out.append(n)
+            out.append(None if i % 2 == 0 else 0)
+            if i % 5 == 4:
+                out += [None, None, 0]
+    else:
+        for n in sizes:
+            while rng.random() < 0.35:
+                out.append(rng.choice([None, None, 0]))
+            out.append(n)
+        if rng.random() < 0.5:
+            out.append(None)
+    return ["reads", out]
 
 
 def sanitize_gap(b):
@@ -153,12 +181,14 @@ class Mirror:
     the generated cases reach (never for a verdict)."""
     BRANCHES = ["outer_exit_len_le_2", "break_len_le_4", "break_incomplete_frame", "frame_parse_msg",
                 "frame_parse_none", "frame_parse_raise", "resync_entered", "inner_drop",
-                "inner_stop_marker", "inner_stop_short", "several_frames_one_call", "empty_chunk"]
+                "inner_stop_marker", "inner_stop_short", "several_frames_one_call", "empty_chunk", "read_none"]
 
     @staticmethod
     def run(chunks, table):
         hit, buf, out = set(), bytearray(), []
         for c in chunks:
+            if c is None:
+                hit.add("read_none"); continue
             if not c:
                 hit.add("empty_chunk")
             buf += c
@@ -224,7 +254,7 @@ def chunkings_for(rng, stream, lay, thorough):
     n = len(stream)
     chs = [["sizes", []]]                                  # whole
     if n <= 1:
-        return chs + [["sizes", [0, n, 0]]]
+        return chs + [["sizes", [0, n, 0]], ["reads", [None, n, None, 0]]]
     if n <= 1500:
         chs.append(["every", 1])
     chs.append(["every", rng.choice([2, 3, 5, 7])])
@@ -241,6 +271,9 @@ def chunkings_for(rng, stream, lay, thorough):
         return [b - a for a, b in zip([0] + cs, cs)]
     if cuts and len(cuts) <= 400:
         chs.append(["sizes", sizes_of(cuts)])
+        # the same cuts (inside every header, inside payloads, between frames) with an empty read
+        # (None / b'') after every chunk: DevOutThread.run must treat them as no-ops
+        chs.append(with_empties(rng, sizes_of(cuts), "each"))
     # one item per chunk; and several items per chunk
     bounds = {en for (_k, _s, en) in lay}
     chs.append(["sizes", sizes_of(bounds)])
@@ -252,6 +285,7 @@ def chunkings_for(rng, stream, lay, thorough):
         cs = sorted(rng.randrange(0, n + 1) for _ in range(kc))
         sz = [b - a for a, b in zip([0] + cs, cs)]
         chs.append(["sizes", sz])
+    chs.append(with_empties(rng, sz, "random"))
     # two-byte residues: cut one byte before / after each item start
     rs = set()
     for (_k, st, _en) in lay:
@@ -341,14 +375,14 @@ def gen_streams(ctx, pool, bigpool):
         if rng.random() < 0.4 and not prev_gap:
             items.append(["gap", rand_gap(rng, 1, 5).hex()])
         return items
-    for _ in range(500 if ctx.thorough else 55):
+    for _ in range(500 if ctx.thorough else 48):
         S.append({"cls": "clean", "items": clean_items(6)})
     # every pooled message at least once, framed between gaps
     for m in small:
         S.append({"cls": "clean", "items": [["gap", rand_gap(rng, 0, 4).hex()], fr(m), ["gap", rand_gap(rng, 0, 3).hex()]]})
 
     # -- truncated frames ------------------------------------------------------
-    for j in range(300 if ctx.thorough else 36):
+    for j in range(300 if ctx.thorough else 30):
         m = rng.choice([x for x in small if len(x["ser"]) >= 4])
         flen = len(m["frame"]) // 2
         pre = clean_items(2) if rng.random() < 0.5 else []
@@ -417,7 +451,7 @@ def gen_pb_streams(ctx, pbm, pool):
         light = [x for x in rest if len(x["payload"]) <= 800]
         packed = kind + [x for x in enum if x not in singles] + rng.sample(light, min(120, len(light)))
     S = []
-    two = [["sizes", []], ["every", 1]]
+    two = [["sizes", []], ["every", 1], ["reads", [None, 2, None, 3, 0, 4, None]]]
     for x in singles:
         S.append({"cls": "clean", "items": [["junk", x["payload"]], R], "chunkings": two, "pb": x["desc"]})
     rng.shuffle(packed)
@@ -466,7 +500,11 @@ def rtable_lit(stream, table):
 
 
 def chunking_lit(ch):
-    return "(Every %d)" % ch[1] if ch[0] == "every" else "(Sizes %s)" % clist([cN(x) for x in ch[1]])
+    if ch[0] == "every":
+        return "(Every %d)" % ch[1]
+    if ch[0] == "reads":
+        return "(Reads %s)" % clist(["None" if x is None else "(Some %d)" % x for x in ch[1]])
+    return "(Sizes %s)" % clist([cN(x) for x in ch[1]])
 
 
 def outs_lit(outs):
@@ -612,8 +650,10 @@ def run(ctx):
             st["chs"] = st["chunkings"]
         elif st.get("big"):
             n = len(st["stream"])
-            st["chs"] = [["sizes", []], ["every", 4096], ["every", 65535], ["sizes", [1, 1, 1, 1, 1, n - 10]],
-                         ["sizes", sorted([ctx.rng.randrange(1, 3000), 2, 1, ctx.rng.randrange(1, 60000)])]]
+            st["chs"] = [["every", 4096], ["reads", [None, 3, 0, 2, None, 1000, None, 0, n - 2000, None]]]
+            if ctx.thorough:
+                st["chs"] += [["sizes", []], ["every", 65535], ["sizes", [1, 1, 1, 1, 1, n - 10]],
+                              ["sizes", sorted([ctx.rng.randrange(1, 3000), 2, 1, ctx.rng.randrange(1, 60000)])]]
         else:
             st["chs"] = chunkings_for(ctx.rng, st["stream"], st["lay"], ctx.thorough)
 
@@ -629,7 +669,7 @@ def run(ctx):
     flat, owner = [], []
     for si, st in enumerate(streams):
         for ci, ch in enumerate(st["chs"]):
-            flat.append([c.hex() for c in split(st["stream"], ch)]); owner.append((si, ci))
+            flat.append(hexs(split(st["stream"], ch))); owner.append((si, ci))
 
     jobs = sweep_jobs(ctx)
     with ThreadPoolExecutor(max_workers=12) as ex:
@@ -801,7 +841,7 @@ def run(ctx):
     ctx.cov["evaluations"] = len(flat) + sweep_runs + len(frame_terms)
     ctx.cov["traces_validated_against_impl"] = len(flat) + sweep_runs + len(frame_terms)
     ctx.cov["distinct_nontrivial"] = C.distinct_count(nontrivial) + sum(len(s["obs"]) for _n, _s, s in sweep_res)
-    ctx.cov["rule"] = ("a case = (stream, chunking) fed to the real DevOutThread.ingest; streams are built from real hub messages framed by the real "
+    ctx.cov["rule"] = ("a case = (stream, schedule of read() results incl. None / b'' reads) replayed by a Device.read() into the real DevOutThread.run loop; streams are built from real hub messages framed by the real "
                        "DevInThread.serialize, marker-free gaps, undecodable / zero-length / truncated frames and arbitrary bytes; "
                        "non-trivial = reaches a branch of the loops other than the initial len<=2 exit (distinct by stream+chunking hash); "
                        "sweep streams counted as non-trivial only when they deliver or raise")
@@ -864,7 +904,7 @@ def replay(payload):
     if "chunks" in case:
         chunks = case["chunks"]
     else:
-        chunks = [c.hex() for c in split(stream, case.get("chunking") or ["sizes", []])]
+        chunks = hexs(split(stream, case.get("chunking") or ["sizes", []]))
     r = C.run_impl("C01.py", {"cases": [chunks, [stream.hex()]]})
     print("stream (%d bytes): %s" % (len(stream), stream.hex()[:400]))
     print("implementation now delivers under this chunking:", {"out": r["cases"][0]["out"], "exc": r["cases"][0]["exc"]})
